@@ -75,6 +75,36 @@ func c06CtorInit(target common.Address, payload []byte) []byte {
 	return append(head, payload...)
 }
 
+// multicall: calldata = frame*, frame = target word(32) ++ len word(32) ++ data(len). CALLs every target in order with
+// its data (failures ignored), so that ONE transaction produces several logs from several contracts.
+//
+//	00 60 00            PUSH1 0            ptr
+//	02 5b               loop:
+//	03 36 81 10         CALLDATASIZE DUP2 LT          ptr < cds
+//	06 60 0a 57 00      PUSH1 body JUMPI STOP
+//	0a 5b               body:
+//	0b 80 35            DUP1 CALLDATALOAD             to
+//	0d 81 60 20 01 35   DUP2 PUSH1 32 ADD CALLDATALOAD   len
+//	12 80 83 60 40 01 60 00 37   DUP1 DUP4 PUSH1 64 ADD PUSH1 0 CALLDATACOPY   mem[0..len) = data
+//	1a 60 00 60 00 82 60 00 60 00 86 5a f1   CALL(gas, to, 0, 0, len, 0, 0)
+//	26 50 90 50 01 60 40 01   POP SWAP1 POP ADD PUSH1 64 ADD   ptr += 64 + len
+//	2d 60 02 56         PUSH1 loop JUMP
+var c06MulticallCode = []byte{0x60, 0x00, 0x5b, 0x36, 0x81, 0x10, 0x60, 0x0a, 0x57, 0x00, 0x5b, 0x80, 0x35, 0x81, 0x60, 0x20, 0x01, 0x35,
+	0x80, 0x83, 0x60, 0x40, 0x01, 0x60, 0x00, 0x37, 0x60, 0x00, 0x60, 0x00, 0x82, 0x60, 0x00, 0x60, 0x00, 0x86, 0x5a, 0xf1,
+	0x50, 0x90, 0x50, 0x01, 0x60, 0x40, 0x01, 0x60, 0x02, 0x56}
+
+var c06MulticallAddr = common.HexToAddress("0x00000000000000000000000000000000c0600008")
+
+func c06Frames(frames ...[2][]byte) []byte {
+	var out []byte
+	for _, f := range frames {
+		out = append(out, common.LeftPadBytes(f[0], 32)...)
+		out = append(out, common.LeftPadBytes(big.NewInt(int64(len(f[1]))).Bytes(), 32)...)
+		out = append(out, f[1]...)
+	}
+	return out
+}
+
 var (
 	c06DelegateAddr = common.HexToAddress("0x00000000000000000000000000000000c0600004")
 	c06CallcodeAddr = common.HexToAddress("0x00000000000000000000000000000000c0600005")
@@ -87,6 +117,7 @@ func (w *c06EvmWorld) installHelpers(ctx sdk.Context) {
 	w.app.SetEVMCode(ctx, c06CallcodeAddr, c06KindForwarder(0xf2))
 	w.app.SetEVMCode(ctx, c06StaticAddr, c06KindForwarder(0xfa))
 	w.app.SetEVMCode(ctx, c06EmitterAddr, c06EmitterCode())
+	w.app.SetEVMCode(ctx, c06MulticallAddr, c06MulticallCode)
 }
 
 // a contract-creation transaction; returns the result and the address of the created contract
@@ -207,6 +238,112 @@ func (w *c06EvmWorld) applyEmit(r *Rec, f []string) string {
 	w.find(r, "C06/packet-sent-log-of-another-contract-drove-the-keeper", "a PacketSent-shaped log emitted by an unprivileged contract made the keeper commit a packet / bump the send sequence",
 		"commitment or sequence changed", "only the packet contract's own logs drive SendPacket")
 	return "sent"
+}
+
+// emitmix <via> <order> <emitter>: ONE transaction whose receipt mixes genuine PacketSent logs of the packet contract
+// (`g`: the multicall helper calls Endpoint.crossChainCall) with look-alike logs of the emitter (`f`), in the given
+// order. Every forged packet is one the keeper would accept at that point: own chain as source, "tss-a" as
+// destination, the sequence that is NEXT when the log is reached (so `gf` forges next+1, `fg` forges next, and
+// `gs` — "same" — forges the sequence the genuine send just used). via = an EOA transaction to the multicall helper,
+// or "packet": the call data of a received packet calls the helper under `execute`.
+// Observation: sends = how far the keeper's next send sequence moved; the oracle additionally demands that the
+// commitments are those of the genuine sends only.
+func (w *c06EvmWorld) applyEmitMix(r *Rec, f []string) string {
+	if len(f) != 4 || common.BytesToAddress(unhx(f[3])) != c06EmitterAddr || f[2] == "" {
+		return "bad-op"
+	}
+	ctx, _ := w.mw.T.GetContext().CacheContext()
+	pkk := w.app.XIBCKeeper.PacketKeeper
+	before := pkk.GetNextSequenceSend(ctx, w.self, "tss-a")
+	ccd, err := endpointcontract.EndpointContract.ABI.Pack("crossChainCall", packettypes.CrossChainData{DstChain: "tss-a", TokenAddress: common.Address{}, Receiver: "",
+		Amount: big.NewInt(0), ContractAddress: "0x1111111111111111111111111111111111111111", CallData: []byte{1}, CallbackAddress: common.Address{}, FeeOption: 0},
+		packettypes.Fee{TokenAddress: common.Address{}, Amount: big.NewInt(0)})
+	if err != nil {
+		return "bad-op"
+	}
+	forged := map[string]bool{}
+	var frames [][2][]byte
+	next, genuine := before, uint64(0)
+	for _, ch := range f[2] {
+		switch ch {
+		case 'g':
+			frames = append(frames, [2][]byte{endpointcontract.EndpointContractAddress.Bytes(), ccd})
+			next++
+			genuine++
+		case 'f', 's':
+			seq := next
+			if ch == 's' && next > before {
+				seq = next - 1 // the sequence the preceding genuine send used
+			}
+			cd, _ := (&packettypes.CallData{ContractAddress: "0x1111111111111111111111111111111111111111", CallData: []byte{2, byte(len(frames))}}).ABIPack()
+			pk := packettypes.NewPacket(w.self, "tss-a", seq, c06Sender, nil, cd, c06ZeroHex, 0)
+			bz, _ := pk.ABIPack()
+			cm, _ := packettypes.CommitPacket(pk)
+			forged[string(cm)] = true
+			data, err := packetcontract.PacketContract.ABI.Events["PacketSent"].Inputs.Pack(bz)
+			if err != nil {
+				return "bad-op"
+			}
+			frames = append(frames, [2][]byte{c06EmitterAddr.Bytes(), data})
+			if ch == 'f' {
+				// a hook that believes the forged log bumps the sequence: the next forged packet is built for that world
+				// only if no genuine send intervenes; the genuine send always uses the contract's own counter
+			}
+		default:
+			return "bad-op"
+		}
+	}
+	payload := c06Frames(frames...)
+	var res c06CallRes
+	if f[1] == "packet" {
+		res, _ = w.runPath(ctx, []string{"packet"}, c06MulticallAddr, payload)
+	} else {
+		a := c06AcctByEth(f[1])
+		if a == nil {
+			return "bad-op"
+		}
+		res = w.ethTx(ctx, *a, c06MulticallAddr, payload)
+	}
+	via := "tx"
+	if f[1] == "packet" {
+		via = "packet"
+	}
+	r.Count("emit.mixed-receipt")
+	r.Count("emit.mixed-receipt." + via)
+	r.Count("emit.mixed-receipt.order-" + f[2])
+	if res.ok {
+		r.Count("emit.mixed-receipt.tx-ok")
+	}
+	after := pkk.GetNextSequenceSend(ctx, w.self, "tss-a")
+	bad := ""
+	if after != before+genuine {
+		bad = fmt.Sprintf("next send sequence moved by %d with %d genuine sends", after-before, genuine)
+	}
+	for seq := before; seq < before+uint64(len(frames))+1; seq++ {
+		cm := pkk.GetPacketCommitment(ctx, w.self, "tss-a", seq)
+		switch {
+		case seq < before+genuine && len(cm) == 0:
+			bad += fmt.Sprintf("; no commitment for genuine send %d", seq)
+		case seq >= before+genuine && len(cm) != 0:
+			bad += fmt.Sprintf("; commitment at %d beyond the genuine sends", seq)
+		case forged[string(cm)]:
+			bad += fmt.Sprintf("; the commitment at %d is that of a forged packet", seq)
+		}
+	}
+	// the packet contract's own counter must agree with the keeper's
+	if d, err := packetcontract.PacketContract.ABI.Pack("getNextSequenceSend", "tss-a"); err == nil {
+		cc, _ := ctx.CacheContext()
+		if v := c06ModuleCall(w.app, cc, c06Accts[7].addr2(), packetcontract.PacketContractAddress, d); v.ok && len(v.ret) == 32 {
+			if got := new(big.Int).SetBytes(v.ret).Uint64(); got != before+genuine {
+				bad += fmt.Sprintf("; packet contract counter %d, expected %d", got, before+genuine)
+			}
+		}
+	}
+	if bad != "" {
+		w.find(r, "C06/packet-sent-log-of-another-contract-drove-the-keeper", "in a receipt that also holds a genuine PacketSent log, a look-alike log of an unprivileged contract was treated as a send",
+			strings.TrimPrefix(bad, "; "), "commitments / counters reflect the packet contract's own logs only")
+	}
+	return fmt.Sprintf("sends=%d", after-before)
 }
 
 // spoof agent-send: a user hands agent.send(...) to `execute`, so that the agent sees msg.sender = execute contract
